@@ -313,6 +313,30 @@ def w_words(items):
     return n, out, counts
 
 
+def w_greedy(idx):
+    from metapype.model.node import Node
+    ok = bad = 0
+    first = None
+    rules = G["rules"]
+    for i in idx:
+        g = G["greedy"][i]
+        unit = g["unit"]
+        el = G["elem1"].get(unit)
+        if unit == "metadataRule":
+            el = None
+        p = realise(unit, el, g["w"], rules)
+        ff, craised, errs = validate_both(unit, el, p)
+        Node.store.clear()
+        got = [e[0].name for e in errs]
+        if craised is None and got == g["errs"]:
+            ok += 1
+        else:
+            bad += 1
+            if first is None:
+                first = {"unit": unit, "children": g["w"], "predicted": g["errs"], "observed": got, "raised": repr(craised)}
+    return ok, bad, first
+
+
 def prepare(rep, tier, pid=PID, words_budget=None):
     wd = workdir(pid, "mc", wipe=True)
     rules, node_map, implemented, loaded = gen_tables.write_rule_table(wd)
@@ -369,7 +393,7 @@ def run(rep, tier, seed):
         per_unit[unit] = {"automaton_states": len(d.states), "minimal_states": d.minimal_states, "alphabet": nsig,
                           "extra_states_k": k, "W": len(d.W), "suite_words": len(words), "w_method_words": wm, "sampled": trunc, "accepted_random_walks": len(lw)}
     rnd.shuffle(items)
-    G.update(rules=rules, dfas=dfas)
+    G.update(rules=rules, dfas=dfas, elem1={ru: [e for e in els if e != "metadata"][0] for ru, els in elements.items() if [e for e in els if e != "metadata"]})
     res = parallel(w_words, items)
     n = 0
     counts = {"ACCEPT": 0, "REJECT": 0, "UNSPEC": 0}
@@ -379,6 +403,28 @@ def run(rep, tier, seed):
             counts[kk] += c[kk]
         for key, det, replay in outl:
             rep.violation(f"{PID}:{key}", det[:600], replay)
+    # Greedy.tla: the transcribed algorithm. (1) bounded theorem on the real table, (2) exact predicted code
+    # sequences compared with the code - both reported as information, never as a C01 violation.
+    gb = 1000 if tier == "quick" else 30000
+    cfgg = os.path.join(wd, "MC_Greedy.cfg")
+    open(cfgg, "w").write(open(os.path.join(SPEC, "MC_Greedy.cfg")).read().replace("Budget = 3000", f"Budget = {gb}"))
+    outg = os.path.join(wd, "greedy.out")
+    rg = run_tlc("Greedy", cfg=cfgg, stdout_path=outg, timeout=2400, lib=wd)
+    rep.add_tlc(rg, f"MC_Greedy.cfg Budget={gb} (transcribed greedy matcher decides the regular language where specified)")
+    ginfo = {"theorem_GreedyDecidesLanguage": "holds" if (rg.ok and not rg.invariant_violated) else "VIOLATED (see DESIGN 11: information only)"}
+    if rg.ok and not rg.invariant_violated:
+        Gl = load_log_all(outg).get("G", [])
+        rnd2 = random.Random(seed + 1)
+        sample = Gl if len(Gl) <= 20000 else rnd2.sample(Gl, 20000)
+        G["greedy"] = sample
+        res = parallel(w_greedy, range(len(sample)))
+        ginfo.update(words_with_predicted_code_sequence=len(sample), exact_sequence_matches=sum(x[0] for x in res),
+                     mismatches=sum(x[1] for x in res), first_mismatch=next((x[2] for x in res if x[2]), None))
+    if os.path.exists(outg):
+        os.remove(outg)
+    rep.notes["greedy_transcription"] = ginfo
+    if ginfo.get("mismatches"):
+        print(f"GREEDY-INFO (not a verdict): {ginfo['mismatches']} collecting-mode code sequences differ from the transcribed algorithm; first: {ginfo['first_mismatch']}")
     rep.notes["words_run_through_validate_node_both_modes"] = n
     rep.notes["verdicts"] = counts
     rep.notes["per_rule"] = per_unit
